@@ -50,6 +50,7 @@ type stepResult struct {
 type session struct {
 	connBase uint64 // connections opened before the last restart: the new server numbers its connections from 1 again
 	rawSent  int
+	rawCount int
 	cfg      sessionCfg
 	srv      *server.Server
 	addr     string
@@ -116,6 +117,7 @@ func newSession(cfg sessionCfg, settle time.Duration) (*session, error) {
 }
 
 var adminPanics int64
+var pollPaused int32
 
 // adminPoll serves every admin endpoint once, in-process (the handlers read the same server object an admin HTTP
 // client would reach); returns the overview counters
@@ -156,7 +158,9 @@ func (s *session) startAdminPoller(stop chan struct{}) {
 				return
 			default:
 			}
-			s.adminPoll()
+			if atomic.LoadInt32(&pollPaused) == 0 {
+				s.adminPoll()
+			}
 			time.Sleep(200 * time.Microsecond)
 		}
 	}()
@@ -807,8 +811,16 @@ func (s *session) open(id int) string {
 func (s *session) step(op string) stepResult {
 	r := stepResult{Op: op}
 	hostile := strings.HasPrefix(op, "RAW ")
+	if hostile {
+		// every other hostile input is measured (the admin poller, which allocates on its own, pauses meanwhile);
+		// the others are processed with the poller running
+		s.rawCount++
+		hostile = s.rawCount%2 == 1
+	}
 	var m0, m1 runtime.MemStats
 	if hostile {
+		atomic.StoreInt32(&pollPaused, 1)
+		time.Sleep(300 * time.Microsecond)
 		runtime.GC()
 		runtime.ReadMemStats(&m0)
 		s.rawSent = 0
@@ -830,6 +842,7 @@ func (s *session) step(op string) stepResult {
 		r.Note += fmt.Sprintf("ADMIN-PANIC(%d)", n)
 	}
 	if hostile {
+		atomic.StoreInt32(&pollPaused, 0)
 		runtime.ReadMemStats(&m1)
 		r.Alloc = m1.TotalAlloc - m0.TotalAlloc
 		r.Sent = s.rawSent
